@@ -106,10 +106,53 @@ def _always_invalidates(cls, attr):
     return out
 
 
-def check_program(prog, res, report):
+def _callers_invalidate(prog, res, g, cls, attr, invalidators, depth, seen):
+    """A method that changes an input of the cache without invalidating it itself is fine if it
+    is only ever called from places that invalidate the cache of the same object afterwards
+    (on every path), directly or one more level up.  A method nobody in the package calls is
+    part of the public surface: it has to invalidate itself."""
+    if depth > 2 or g.qualname in seen:
+        return False
+    seen = seen | {g.qualname}
+    sites = []
+    for h in prog.functions.values():
+        for node, callees, status in res.call_sites(h):
+            if g in callees and isinstance(node, ast.Call):
+                sites.append((h, node))
+    if not sites:
+        return False
+    for h, call in sites:
+        cfg = cfg_of(h)
+        if not cfg.has(call) or not isinstance(call.func, ast.Attribute):
+            return False
+        recv = unparse(call.func.value)
+        cid = cfg.node_of(call).id
+        inv = set()
+        for m in walk_no_nested(h.node):
+            if not cfg.has(m):
+                continue
+            if isinstance(m, ast.Assign) and isinstance(m.value, ast.Constant) and \
+                    m.value.value is None and any(
+                        isinstance(t, ast.Attribute) and t.attr == attr and
+                        unparse(t.value) == recv for t in m.targets):
+                inv.add(cfg.node_of(m).id)
+            if isinstance(m, ast.Call) and isinstance(m.func, ast.Attribute) and \
+                    m.func.attr in invalidators and unparse(m.func.value) == recv and \
+                    m is not call:
+                inv.add(cfg.node_of(m).id)
+        if inv and cfg.must_pass(cid, cfg.exit.id, inv - {cid}):
+            continue
+        if recv == h.self_name and h.cls is cls and \
+                _callers_invalidate(prog, res, h, cls, attr, invalidators, depth + 1, seen):
+            continue
+        return False
+    return True
+
+
+def check_program(prog, res, report, classes=None):
     """Apply the rule to `prog`; report(construct, ok, where, what) per obligation.
     Returns the number of caches found."""
-    caches = memo_caches(prog)
+    caches = [(c, a) for c, a in memo_caches(prog) if classes is None or c.name in classes]
     for cls, attr in caches:
         inputs, fills = _fill_inputs(cls, attr)
         invalidators = _always_invalidates(cls, attr)
@@ -187,6 +230,8 @@ def check_program(prog, res, report):
                                     calm = False
                         if calm:
                             ok = True
+                if not ok and recv == g.self_name and g.cls is cls:
+                    ok = _callers_invalidate(prog, res, g, cls, attr, invalidators, 0, set())
                 report('%s:%s.%s-after-write(%s.%s)' % (g.qualname, cls.name, attr, recv, e.attr),
                        ok, g.where(n),
                        'the write to %s.%s is followed on every path by an invalidation of the '
@@ -227,13 +272,14 @@ def _fixture_program(name):
     return prog
 
 
-def rule_K2(ctx, rid='K2'):
+def rule_K2(ctx, rid='K2', classes=None):
     ctx.rule(rid, 'memo coherence: every statement of the package that writes an attribute a '
              'cached-on-demand value is computed from is followed on every path by an '
              'invalidation of that cache on the same object (or immediately preceded by one)')
     prog = ctx.program
     res = resolver(prog)
-    n = check_program(prog, res, lambda c, ok, where, what: ctx.ob(rid, c, ok, where, what))
+    n = check_program(prog, res, lambda c, ok, where, what: ctx.ob(rid, c, ok, where, what),
+                      classes)
     ctx.extra['memo_caches_found'] = n
     # keep the rule alive: it must fire on the bad fixture and stay silent on the good one
     fired = {}
